@@ -122,15 +122,17 @@ class Alias:
         ):
             return getattr(instance, self.override_attr)
         try:
-            return (self.transform or (lambda x: x))(
-                self.__lookup_attr_path(instance, self._attr_path)
-            )
-        except AttributeError:
-            if self.fallback is not MISSING:
-                from spec_classes.utils.mutation import protect_via_deepcopy
+            try:
+                value = self.__lookup_attr_path(instance, self._attr_path)
+            except AttributeError:
+                # The fallback stands in for a missing target (only: an
+                # AttributeError raised by the transform is the caller's to see).
+                if self.fallback is not MISSING:
+                    from spec_classes.utils.mutation import protect_via_deepcopy
 
-                return protect_via_deepcopy(self.fallback)
-            raise
+                    return protect_via_deepcopy(self.fallback)
+                raise
+            return self.transform(value) if self.transform else value
         except RecursionError as e:
             raise ValueError(
                 f"{self.__class__.__name__} for `{instance.__class__.__name__}.{self.attr}` "
